@@ -2,7 +2,8 @@
 
    case line:   kind ( n ending ) ( c1 c2 ... )
      kind    0 WSGI stream, 1 WSGI event stream (repaired relay), 2 ASGI stream,
-             3 ASGI event stream, 4 WSGI event stream with the relay as it was
+             3 ASGI event stream, 4 WSGI event stream with the relay as it was,
+             5 WSGI event stream on a thread pool without a free worker (choice 0 never available)
      n, ending   the producer: n items, then 0 = stops, 1 = raises, 2 = never ends
      c1 c2 ...   the schedule (coarse choices, see Model.v); a choice that is not
                  enabled is skipped; after the schedule the run is completed by a
@@ -134,6 +135,16 @@ Definition run_W (fixed : bool) (prod : producer) (sch : list nat) : list sx :=
   show_obs (wout s) (match wcp s with CEnd o => show_outcome o | _ => stuck stopped end)
            (wg s) (if p_finished (wpp s) then 0 else 1) (ac_p a) (ac_t a) (ac_n a).
 
+(* W with an exhausted pool *)
+Definition wsat_policy (fixed : bool) (prod : producer) (s : wstate) : option nat :=
+  if w_final s then None else first_enabled (coarseWsat fixed prod) [2; 1] s.
+Definition run_Wsat (fixed : bool) (prod : producer) (sch : list nat) : list sx :=
+  let '(a, stopped) := complete (coarseWsat fixed prod) w_kind (Nat.eqb 2) (wsat_policy fixed prod) FUEL
+                         (exec (coarseWsat fixed prod) w_kind (Nat.eqb 2) sch w_init) in
+  let s := ac_s a in
+  show_obs (wout s) (match wcp s with CEnd o => show_outcome o | _ => stuck stopped end)
+           (wg s) (if p_finished (wpp s) then 0 else 1) (ac_p a) (ac_t a) (ac_n a).
+
 Definition run_A (prod : producer) (sch : list nat) : list sx :=
   let '(a, stopped) := complete (coarseA prod) a_kind (Nat.eqb 3) (a_policy prod) FUEL
                          (exec (coarseA prod) a_kind (Nat.eqb 3) sch a_init) in
@@ -164,6 +175,7 @@ Definition run_case (c : list sx) : list sx :=
       | 2 => show_scheds (enum (coarseA prod) [0; 1; 2; 3; 4] true depth 1 a_init)
       | 3 => show_scheds (enum (coarseE prod) [0; 1; 2; 3; 4] true depth 1 e_init)
       | 4 => show_scheds (enum (coarseW false prod) [0; 1; 2] false depth 0 w_init)
+      | 5 => show_scheds (enum (coarseWsat true prod) [1; 2] false depth 0 w_init)
       | _ => [tag (lit "badkind")]
       end
   | [k; Lst [n; e]; Lst sch] =>
@@ -175,6 +187,7 @@ Definition run_case (c : list sx) : list sx :=
       | 2 => run_A prod sched
       | 3 => run_E prod sched
       | 4 => run_W false prod sched
+      | 5 => run_Wsat true prod sched
       | _ => [tag (lit "badkind")]
       end
   | _ => [tag (lit "badcase")]
